@@ -1906,7 +1906,10 @@ fn compare_greater_byte_array_decimals(a: &[u8], b: &[u8]) -> bool {
         }
     }
 
-    (a[1..]) > (b[1..])
+    // Any extra leading bytes of the longer value are pure sign extension at this point, so
+    // the values compare like their trailing `min(a_length, b_length)` bytes (same sign).
+    let len = a_length.min(b_length);
+    a[a_length - len..] > b[b_length - len..]
 }
 
 /// Truncate a UTF-8 slice to the longest prefix that is still a valid UTF-8 string,
